@@ -399,7 +399,7 @@ def cases(draw, tier):
     nsteps = draw(st.integers(2, 10 if tier == "quick" else 25))
     steps = []
     comms = ["world"]
-    # communicator creation and zero-count collectives hit known findings (known/C37.json): in a minority of the cases only, so that
+    # communicator creation and zero-count collectives hit known findings (known_findings.json (C37)): in a minority of the cases only, so that
     # the other cases can show other divergences
     with_comm = draw(st.integers(0, 6)) == 0
     zero_ok = draw(st.integers(0, 6)) == 0
